@@ -500,12 +500,24 @@ func runC14(p *core.Prog, r *core.Report) {
 	r.Guard("C14.R5", "executeModules/barrier", "barrier between spawn and apply", func() {
 		fn := p.Func(pkgPipe, "Pipeline.executeModules")
 		r.Touch(core.FuncName(fn))
+		// the function that spawns the layer's goroutines: executeModules itself or a helper it calls (same package)
 		var gos []ssa.Instruction
-		core.Instrs(fn, func(in ssa.Instruction) {
-			if _, ok := in.(*ssa.Go); ok {
-				gos = append(gos, in)
+		for _, member := range core.Family(fn, 2) {
+			if member.Parent() != nil {
+				continue
 			}
-		})
+			var g []ssa.Instruction
+			core.Instrs(member, func(in ssa.Instruction) {
+				if _, ok := in.(*ssa.Go); ok {
+					g = append(g, in)
+				}
+			})
+			if len(g) > 0 {
+				gos, fn = g, member
+				r.Touch(core.FuncName(fn))
+				break
+			}
+		}
 		if len(gos) == 0 {
 			core.Undecide("executeModules: no goroutine spawn")
 		}
@@ -571,9 +583,11 @@ func runC14(p *core.Prog, r *core.Report) {
 		// stages iterate in slice order: the outer loop over p.ModuleExecutors is an ascending range
 		me := p.Field(pkgPipe, "Pipeline", "ModuleExecutors")
 		asc := false
-		for _, l := range core.LoopIndexing(fn, func(v ssa.Value) bool { f, _ := core.LoadedField(v); return f == me }) {
-			if d, _ := l.InductionDir(); d == 1 {
-				asc = true
+		for _, member := range core.Family(p.Func(pkgPipe, "Pipeline.executeModules"), 2) {
+			for _, l := range core.LoopIndexing(member, func(v ssa.Value) bool { f, _ := core.LoadedField(v); return f == me }) {
+				if d, _ := l.InductionDir(); d == 1 {
+					asc = true
+				}
 			}
 		}
 		r.Check(asc, "C14.R5", "executeModules/order", "layers are executed in the order computed by the staging (ascending range over ModuleExecutors)", "loop over ModuleExecutors is not an ascending range", p.Pos(fn.Pos()))
